@@ -681,7 +681,16 @@ func TestMeanCIGrid(t *testing.T) {
 		for _, c := range []float64{0.5, 0.8, 0.9, 0.95, 0.975, 0.98, 0.99, 0.995, 0.999, 0.05, 0.1} {
 			checkMeanCI.Run(t, &CICase{Xs: xs, C: c})
 		}
+		// and a fine grid of levels: an approximation to the t quantile (a series in 1/DoF, a
+		// starting value trusted too far) is off in bands of the level that are a fraction of a
+		// percent wide at one small sample size - random levels find those only in the long run
+		for k := 1; k < 512; k++ {
+			if ev.MyShare(n*512 + k) {
+				checkMeanCI.RunEnum(t, &CICase{Xs: xs, C: float64(k) / 512})
+			}
+		}
 	}
+	ev.Exhaustive("MeanCI at every sample size 2..40 for the confidence levels k/512, k = 1..511")
 }
 
 func TestMeanCI(t *testing.T) {
